@@ -36,6 +36,49 @@ Definition outs_eqb (a b : list out) : bool :=
   list_eqb res_eqb (results a) (results b) &&
   forallb (fun x => list_eqb msg_eqb (sends_to x a) (sends_to x b)) (dests a ++ dests b).
 
+(* Request ids are random in QMI; the harness numbers them per context in creation order and the model has
+   a per-context counter.  The two numberings agree unless one side creates a request object the other
+   does not (e.g. a subscribe that is refused before / after a request is registered), which the property
+   does not fix.  The comparison is therefore up to a renaming of request ids, built on the fly: the k-th
+   request a step hands to the router on the implementation side is paired with the k-th of the model. *)
+Definition ren := list ((name * N) * N).
+Definition ren_key_eqb (a b : name * N) : bool := str_eqb (fst a) (fst b) && N.eqb (snd a) (snd b).
+Definition tr_id (r : ren) (x : name) (id : N) : N :=
+  match alookup ren_key_eqb (x, id) r with Some j => j | None => 4000000 + id end.
+Definition tr_msg (r : ren) (actor dest : name) (m : msg) : msg :=
+  match m with
+  | MSubReq id p s f => MSubReq (tr_id r actor id) p s f
+  | MSubReply id ok => MSubReply (tr_id r dest id) ok
+  | _ => m
+  end.
+Definition tr_outs (r : ren) (actor : name) (os : list out) : list out :=
+  map (fun o => match o with OSend y m => OSend y (tr_msg r actor y m) | ORes _ => o end) os.
+Definition out_req_ids (os : list out) : list N :=
+  flat_map (fun o => match o with OSend _ (MSubReq id _ _ _) => [id] | _ => [] end) os.
+Fixpoint ren_extend (r : ren) (x : name) (model impl : list N) : option ren :=
+  match model, impl with
+  | [], [] => Some r
+  | j :: model', i :: impl' =>
+      match alookup ren_key_eqb (x, i) r with
+      | Some j' => if N.eqb j j' then ren_extend r x model' impl' else None
+      | None => ren_extend (((x, i), j) :: r) x model' impl'
+      end
+  | _, _ => None
+  end.
+(* model outputs [os] of a step of context [actor] against the observed [exp] *)
+Definition match_outs (r : ren) (actor : name) (os exp : list out) : option ren :=
+  match ren_extend r actor (out_req_ids os) (out_req_ids exp) with
+  | Some r' => if outs_eqb os (tr_outs r' actor exp) then Some r' else None
+  | None => None
+  end.
+(* a subscribe that cannot succeed may be refused at once (QMI_SignalSubscriptionException from the call)
+   or after registering a request and cancelling it (the call blocks in wait() and wait() returns the
+   failure): the same outcome, nothing stored.  The model does the latter. *)
+Definition swap_wait (os : list out) : list out :=
+  map (fun o => match o with ORes RWait => ORes RSubErr | _ => o end) os.
+Definition is_wait_then_err (os os2 : list out) : bool :=
+  list_eqb res_eqb (results os) [RWait] && list_eqb res_eqb (results os2) [RSubErr] && Nat.eqb (length os2) 1.
+
 Definition subset {A} (eqb : A -> A -> bool) (l m : list A) : bool := forallb (fun x => smem eqb x m) l.
 Definition set_eqb {A} (eqb : A -> A -> bool) (l m : list A) : bool := subset eqb l m && subset eqb m l.
 
@@ -57,8 +100,9 @@ Fixpoint list_rel {A B} (f : A -> B -> bool) (a : list A) (b : list B) : bool :=
   | _, _ => false
   end.
 
-Definition obs_ok (n : node) (o : obs) : bool :=
-  let '(ls, rs, pid, pname, logs) := o in
+Definition obs_ok (r : ren) (n : node) (o : obs) : bool :=
+  let '(ls, rs, pid0, pname, logs) := o in
+  let pid := map (fun e : N * str => (tr_id r (n_name n) (fst e), snd e)) pid0 in
   list_eqb (fun a b => str_eqb (fst a) (fst b) && set_eqb N.eqb (snd a) (snd b)) (n_lsubs n) ls &&
   list_eqb (fun a b => str_eqb (fst a) (fst b) && set_eqb str_eqb (snd a) (snd b)) (n_rsubs n) rs &&
   list_eqb (fun a b => N.eqb (fst a) (fst b) && str_eqb (snd a) (snd b)) (n_pid n) pid &&
@@ -76,23 +120,44 @@ Inductive ev :=
 
 Definition case := (list (name * list name) * list ev)%type.
 
+Definition actorN (l : labelN) : name :=
+  match l with LNode x _ => x | LDeliver _ y => y | LClose x _ => x | LConnect _ _ => [] end.
+
 (* index of the first event the model does not reproduce, with the model's outputs there *)
-Fixpoint first_bad (s : sysN) (es : list ev) (i : nat) : option (nat * option (list out)) :=
+Fixpoint first_bad (r : ren) (s : sysN) (es : list ev) (i : nat) : option (nat * option (list out)) :=
   match es with
   | [] => None
-  | EStep l exp :: r =>
+  | EStep l exp :: rest =>
       match stepN s l with
-      | Some (s', os) => if outs_eqb os exp then first_bad s' r (S i) else Some (i, Some os)
+      | Some (s', os) =>
+          match match_outs r (actorN l) os exp with
+          | Some r' => first_bad r' s' rest (S i)
+          | None =>
+              match l with
+              | LNode x (ISub call _ _ _ _) =>
+                  match stepN s' (LNode x (ISubEnd call)) with
+                  | Some (s'', os2) =>
+                      if is_wait_then_err os os2 then
+                        match match_outs r x (swap_wait os) exp with
+                        | Some r' => first_bad r' s'' rest (S i)
+                        | None => Some (i, Some os)
+                        end
+                      else Some (i, Some os)
+                  | None => Some (i, Some os)
+                  end
+              | _ => Some (i, Some os)
+              end
+          end
       | None => Some (i, None)
       end
-  | ECheck x o :: r =>
+  | ECheck x o :: rest =>
       match getn s x with
-      | Some n => if obs_ok n o then first_bad s r (S i) else Some (i, Some [])
+      | Some n => if obs_ok r n o then first_bad r s rest (S i) else Some (i, Some [])
       | None => Some (i, None)
       end
   end.
 
-Definition model_out (c : case) : option (nat * option (list out)) := first_bad (initN (fst c)) (snd c) 0.
+Definition model_out (c : case) : option (nat * option (list out)) := first_bad [] (initN (fst c)) (snd c) 0.
 Definition check_case (c : case) : bool := match model_out c with None => true | Some _ => false end.
 
 (* the model's tables of one node after a history (for replay printing) *)
@@ -110,19 +175,45 @@ Inductive ev2 :=
 
 Definition case2 := ((name * list name) * (name * list name) * list ev2)%type.
 
-Fixpoint first_bad2 (s : sys2) (es : list ev2) (i : nat) : option (nat * option (list out)) :=
+Definition actor2 (s : sys2) (l : label2) : name :=
+  match l with
+  | L2Node sd _ => n_name (nd s sd)
+  | L2Deliver sd => n_name (nd s (negb sd))
+  | L2Close sd => n_name (nd s sd)
+  | L2Connect => []
+  end.
+
+Fixpoint first_bad2 (r : ren) (s : sys2) (es : list ev2) (i : nat) : option (nat * option (list out)) :=
   match es with
   | [] => None
-  | E2Step l exp :: r =>
+  | E2Step l exp :: rest =>
       match step2 s l with
-      | Some (s', os) => if outs_eqb os exp then first_bad2 s' r (S i) else Some (i, Some os)
+      | Some (s', os) =>
+          match match_outs r (actor2 s l) os exp with
+          | Some r' => first_bad2 r' s' rest (S i)
+          | None =>
+              match l with
+              | L2Node sd (ISub call _ _ _ _) =>
+                  match step2 s' (L2Node sd (ISubEnd call)) with
+                  | Some (s'', os2) =>
+                      if is_wait_then_err os os2 then
+                        match match_outs r (actor2 s l) (swap_wait os) exp with
+                        | Some r' => first_bad2 r' s'' rest (S i)
+                        | None => Some (i, Some os)
+                        end
+                      else Some (i, Some os)
+                  | None => Some (i, Some os)
+                  end
+              | _ => Some (i, Some os)
+              end
+          end
       | None => Some (i, None)
       end
-  | E2Check sd o :: r => if obs_ok (nd s sd) o then first_bad2 s r (S i) else Some (i, Some [])
+  | E2Check sd o :: rest => if obs_ok r (nd s sd) o then first_bad2 r s rest (S i) else Some (i, Some [])
   end.
 
 Definition model_out2 (c : case2) : option (nat * option (list out)) :=
-  let '(a, b, es) := c in first_bad2 (init2 (fst a) (fst b) (snd a) (snd b)) es 0.
+  let '(a, b, es) := c in first_bad2 [] (init2 (fst a) (fst b) (snd a) (snd b)) es 0.
 Definition check_case2 (c : case2) : bool := match model_out2 c with None => true | Some _ => false end.
 
 (* name validity on its own (util.is_valid_object_name) *)
